@@ -135,7 +135,7 @@ theorem crash_only_in_refresh (sp : Spec) (w : World) (ev : Event)
           · split
             · exact hc
             · split
-              · exact hc
+              · rw [checkAffected_crashed]; exact hc
               · split <;> exact hc
     | rpcResult t ok =>
       apply contra; simp only [step]
